@@ -765,6 +765,9 @@ func (m *Model) chain(c Chain, recv Val, chainArg Val, one func(recv Val, acc Va
 				return r
 			}
 			if thoughtful && r.v.T == "nil" {
+				// property call keeps the accumulator, literal call takes nil (C04's
+				// business, not decided here): the accumulator is unspecified from here on
+				acc = vOpq
 				continue
 			}
 			acc = r.v
